@@ -459,6 +459,12 @@ func moduleBlock() *schema.BlockSchema {
 							Path:        childLP,
 							Constraints: schema.Constraints{ScopeId: "variable", Type: cty.String},
 						}},
+					"region": {IsOptional: true, Description: md("child-region-input-desc"), Constraint: schema.AnyExpression{OfType: cty.String},
+						OriginForTarget: &schema.PathTarget{
+							Address:     schema.Address{schema.StaticStep{Name: "exports"}, schema.AttrNameStep{}},
+							Path:        childLP,
+							Constraints: schema.Constraints{ScopeId: "export", Type: cty.String},
+						}},
 					"size": {IsOptional: true, Description: md("child-size-input-desc"), Constraint: schema.AnyExpression{OfType: cty.Number},
 						OriginForTarget: &schema.PathTarget{
 							Address:     schema.Address{schema.StaticStep{Name: "var"}, schema.AttrNameStep{}},
@@ -700,6 +706,30 @@ func Terraform() *schema.BodySchema {
 // ChildSchema is the schema of the child module path: variables and outputs.
 func ChildSchema() *schema.BodySchema {
 	s := Terraform()
+	// a block that is targetable as a whole with nested targetables: parent and nested
+	// declarations share the block's ranges, and the root module's "region" input is a
+	// path origin for the NESTED one (exports.region)
+	s.Blocks["exports"] = &schema.BlockSchema{
+		Description: md("exports-block-desc"),
+		MaxItems:    1,
+		Body: &schema.BodySchema{
+			Description: md("exports-body-desc"),
+			Attributes: map[string]*schema.AttributeSchema{
+				"note": {IsOptional: true, Constraint: schema.LiteralType{Type: cty.String}, Description: md("exports-note-desc")},
+			},
+			TargetableAs: schema.Targetables{
+				{
+					Address: lang.Address{lang.RootStep{Name: "exports"}}, ScopeId: "export",
+					AsType:       cty.Object(map[string]cty.Type{"region": cty.String, "zone": cty.String}),
+					FriendlyName: "exports", Description: md("exports-targetable-desc"),
+					NestedTargetables: schema.Targetables{
+						{Address: lang.Address{lang.RootStep{Name: "exports"}, lang.AttrStep{Name: "region"}}, ScopeId: "export", AsType: cty.String, Description: md("exports-region-desc")},
+						{Address: lang.Address{lang.RootStep{Name: "exports"}, lang.AttrStep{Name: "zone"}}, ScopeId: "export", AsType: cty.String, Description: md("exports-zone-desc")},
+					},
+				},
+			},
+		},
+	}
 	return s
 }
 
